@@ -32,6 +32,11 @@ impl Gen {
     /// collection sizes: small, biased to the boundaries 0/1/2; at the top level occasionally one
     /// of the sizes at which buffering strategies change (4096-byte capacity hints, 64 KiB)
     pub fn size(&mut self, depth: u32) -> usize {
+        if SMALL_ONLY.load(std::sync::atomic::Ordering::Relaxed) {
+            // element types of several KiB: collections of 0..=3 of them
+            FORCE_BIG.with(|f| f.borrow_mut().take());
+            return self.below(4) as usize;
+        }
         let cap = match depth {
             0 => 9,
             1 => 5,
@@ -63,6 +68,9 @@ impl Gen {
         Gen::new(self.next())
     }
 }
+
+/// set while the catalogue of large-element types runs (collections stay tiny)
+pub static SMALL_ONLY: std::sync::atomic::AtomicBool = std::sync::atomic::AtomicBool::new(false);
 
 thread_local! {
     static FORCE_BIG: std::cell::RefCell<Option<usize>> = std::cell::RefCell::new(None);
